@@ -126,6 +126,19 @@ CHECKS = {
             "Exact bound: exhaustive on the 360-point grid (exhaustive for that part), exploration for the SIM histories "
             "and the real recursion trees.",
             "PURE substitutes MAX_DEPTH/_CURRENT_DEPTH in the module; REAL recursion limited to 4 levels", "DESIGN.md §6 C19"),
+    "C18": ("REAL", "Hypothesis-generated driver programs run by a fresh interpreter on real processes: extra parent descriptors "
+                    "(kind, inheritability, numbering), env overlays, LokyProcess exit codes/signals, initializer histories "
+                    "(idle-timeout respawn, memory-leak exit, resize, failing k-th spawn), a guard-less user script; oracles on "
+                    "/proc/self/fd link targets, environment at start-up/import/task time, exitcode/sentinel, per-task "
+                    "initialisation markers; plus a pure Hypothesis check of the initializer chaining helpers",
+            "Universally quantified negatives (no stray descriptor, no uninitialised worker) sampled over generated host "
+            "states and histories on the real OS. Exploration.",
+            "Linux /proc; default loky start method; 64 driver runs in the quick tier", "DESIGN.md §6 C18"),
+    "C20": ("REAL", "Hypothesis-generated lists of executor lifecycles repeated k times in a fresh driver interpreter; "
+                    "metamorphic oracle: descriptor/thread/child/named-semaphore counts after repetitions 2..k equal those "
+                    "after repetition 1 (a leak must persist after a settle loop and grow with every repetition)",
+            "Cumulative-leak relation over generated lifecycle histories on real processes. Exploration.",
+            "a constant one-off excess is attributed to first-use initialisation (trackers, atexit hooks)", "DESIGN.md §6 C20"),
 }
 
 NOT_YET = {}
